@@ -4,6 +4,13 @@ import json, os
 HERE = os.path.dirname(os.path.dirname(os.path.abspath(__file__)))
 
 CLAIMED = {
+    "C19": dict(
+        technique="decision-table extraction of both conversion directions for every discovered string enum (all macro expansions) + inverse/alias/prefix/fallback checks + frozen spelling table",
+        text="Decides, for every enum with the derived/generated string conversions (48 in the default build, 64 with API features): From and AsRef tables are mutually inverse, "
+             "aliases canonicalise, wildcard prefixes keep the suffix, unknown strings are stored and returned verbatim, serde/Display go through the string form, spellings equal the frozen table; "
+             "derived structural orderings are reported (21 known findings). Hand-written string enums are not covered by the template rule.",
+        note="Trusted: frozen spellings (reviewed for the spec-named enums); privacy of PrivOwnedStr.",
+        design="DESIGN.md §4 C19"),
     "C11": dict(
         technique="A3 site rule + const-evaluated encode-set bitmask + sanitizer must-pass-through over MIR paths + writer/reader table agreement",
         text="Decides structural necessary conditions of the round trip: no panic site in matrix_uri parsing; the path-segment encode set covers '/', '?', '#', '%'; "
